@@ -237,6 +237,29 @@ static void part_params(uint64_t &top)
     }
 }
 
+// (d2) default reply/broadcast forwarding with answers of every size class, including ones that do not fit the
+//      forwarding buffer (they must fail closed, not fall back to the heap)
+static void part_reply(uint64_t &top)
+{
+    struct Sink : rtosc::RtData { unsigned long n = 0; void reply(const char *m) override { n += (unsigned char)m[0]; } void broadcast(const char *m) override { n += (unsigned char)m[0]; } using rtosc::RtData::reply; using rtosc::RtData::broadcast; };
+    for(size_t len : {0u, 1u, 15u, 16u, 255u, 1024u, 8000u, 8176u, 8184u, 8192u, 9000u, 20000u, 70000u}) {
+        if(!vp::mine(top++)) continue;
+        std::string cid = "reply|strlen" + std::to_string(len);
+        if(!vp::want(cid)) continue;
+        std::string big(len, 'r'); std::vector<unsigned char> blob(len ? len : 1, 7);
+        Sink d;
+        vp::state(); vp::eval(); vp::nontrivial(vp::fnv(cid));
+        RT_BEGIN
+            d.reply("/answer", "s", big.c_str());
+            d.broadcast("/answer", "s", big.c_str());
+            d.reply("/answer", "isb", 7, big.c_str(), (int)len, blob.data());
+            d.broadcast("/answer", "b", (int)len, blob.data());
+            d.reply("/answer", "");
+        RT_END("RtData::reply/broadcast", (len + 16 > 8192 ? "answer-exceeds-forwarding-buffer" : "answer-fits"), cid)
+        vp::outcome("default reply/broadcast forwarding, answers up to 70000 bytes");
+    }
+}
+
 // (e) ThreadLink ------------------------------------------------------------------------------------------------
 static void part_threadlink(uint64_t &top)
 {
@@ -283,6 +306,7 @@ int main(int argc, char **argv)
     part_match(top);
     part_dispatch(top);
     part_params(top);
+    part_reply(top);
     part_threadlink(top);
     vp::bound("families", "messages: all well-nested type strings of length 0..3 over 17 symbols x each-used values x 3 address lengths, built by amessage/message/vmessage and read by every accessor; bundles: all sequences of 0..3 elements (nesting <= 2); rtosc_match: 18 patterns x all addresses up to length 3 x 6 type strings; dispatch: all 2047 subsets of an 11-name universe (incl. names longer than the small-string buffer, callbacks with large closures) (hashed, linear, #N, multi-component, nested 3 levels) x specs x default handler x derived matching/non-matching/oversized messages x 3 dispatch modes; every port of the C14 application x 12 type strings, in/out of range values, unknown addresses; ThreadLink 16/32 x 2/3 with 0..3 pre-filled messages");
     vp::outcome("realtime sections checked", g_sections);
